@@ -5,6 +5,7 @@
 //           fv, dx = arguments of the LAST criterion evaluation (0 bits when never evaluated);
 //           followed by " | " and harness-side facts used by the property predicate:
 //           ctrue=<result of last criterion call> cx=<x of last criterion call> ci=<i of it>
+//           fv <f value answered at call 0> <at call 1> ...
 #include <cmath>
 #include <cstdint>
 #include <cstdio>
@@ -82,11 +83,13 @@ int main() {
       }
       const double cp = from_bits(scp);
       std::vector<double> args;
+      std::vector<double> fvals;
       auto f = [&](const double x) {
         const auto k = args.size();
         args.push_back(x);
-        if (k < script.size()) return script[k];
-        return fn(fid, x);
+        const auto r = (k < script.size()) ? script[k] : fn(fid, x);
+        fvals.push_back(std::get<0>(r));
+        return r;
       };
       std::size_t ncrit = 0;
       double lfv = 0, ldx = 0, lx = 0;
@@ -119,7 +122,9 @@ int main() {
                 << " n " << args.size();
       for (const auto a : args) std::cout << " " << bits(a);
       std::cout << " c " << ncrit << " " << bits(lfv) << " " << bits(ldx) << " | ctrue=" << (lres ? 1 : 0)
-                << " cx=" << bits(lx) << " ci=" << li << "\n";
+                << " cx=" << bits(lx) << " ci=" << li << " fv";
+      for (const auto v : fvals) std::cout << " " << bits(v);
+      std::cout << "\n";
     } catch (...) {
       std::cout << "bad-op\n";
     }
